@@ -155,7 +155,7 @@ impl RunRt {
         }
     }
 
-    fn reset(&mut self, policy: Policy, sched_seed: u64, replay: Vec<u16>) {
+    pub fn reset(&mut self, policy: Policy, sched_seed: u64, replay: Vec<u16>) {
         self.active = true;
         self.tasks = vec![TaskState::default()];
         self.policy = policy;
